@@ -449,6 +449,7 @@ func init() {
 		"github.com/puzpuzpuz/xsync/v3.NewMapOf":                xsyncNew,
 		"(*github.com/puzpuzpuz/xsync/v3.MapOf).LoadOrCompute": xsyncLoadOrCompute,
 		"(*github.com/puzpuzpuz/xsync/v3.MapOf).Load":          xsyncLoad,
+		"(*github.com/puzpuzpuz/xsync/v3.MapOf).Store":         xsyncStore,
 		"(*github.com/puzpuzpuz/xsync/v3.MapOf).Delete":        xsyncDelete,
 		"(*github.com/puzpuzpuz/xsync/v3.MapOf).Size":          xsyncSize,
 		"(*github.com/puzpuzpuz/xsync/v3.MapOf).Range":         xsyncRange,
@@ -482,6 +483,11 @@ func init() {
 			p := iv.V.(*Pointer)
 			mo := s.obj(p.Obj).Val.(*MapObj)
 			s.wobj(p.Obj).Val = &MapObj{Entries: mo.Entries, Extra: args[1].(*Term)}
+			return nil, true
+		},
+		rtPkg + "OtterEvictAll": func(e *Engine, s *State, f *Frame, fn *ssa.Function, args []Value, retIdx int, advance bool) (Value, bool) {
+			e.otterObj(s)
+			s.wobj(s.ghost["otter.obj"]).Val = &MapObj{}
 			return nil, true
 		},
 		rtPkg + "GhostDuration": func(e *Engine, s *State, f *Frame, fn *ssa.Function, args []Value, retIdx int, advance bool) (Value, bool) {
@@ -846,6 +852,7 @@ func xsyncLoadOrCompute(e *Engine, s *State, f *Frame, fn *ssa.Function, args []
 		s.wobj(p.Obj).Val = &MapObj{Entries: append(append([]MapEntry(nil), mo.Entries...), MapEntry{args[1], v}), Extra: mo.Extra}
 		return TupleV{v, e.c.False}, true
 	}
+	e.preemptPoint(s) // every operation of the concurrent map is a synchronisation point
 	if v, ok := xsyncLookup(e, s, p, args[1]); ok {
 		return TupleV{v, e.c.True}, true
 	}
@@ -854,7 +861,29 @@ func xsyncLoadOrCompute(e *Engine, s *State, f *Frame, fn *ssa.Function, args []
 	return tailCall, true
 }
 
+// Store: insert or overwrite (one atomic step of the concurrent map)
+func xsyncStore(e *Engine, s *State, f *Frame, fn *ssa.Function, args []Value, retIdx int, advance bool) (Value, bool) {
+	e.preemptPoint(s)
+	p := args[0].(*Pointer)
+	if p.IsNil() {
+		e.fail(s, "panic", "nil xsync.MapOf")
+	}
+	mo := s.obj(p.Obj).Val.(*MapObj)
+	for i, en := range mo.Entries {
+		if e.cond(s, e.valueEq(s, en.K, args[1])) {
+			ne := append([]MapEntry(nil), mo.Entries...)
+			ne[i].V = args[2]
+			s.wobj(p.Obj).Val = &MapObj{Entries: ne, Extra: mo.Extra}
+			return nil, true
+		}
+	}
+	mo = s.obj(p.Obj).Val.(*MapObj)
+	s.wobj(p.Obj).Val = &MapObj{Entries: append(append([]MapEntry(nil), mo.Entries...), MapEntry{args[1], args[2]}), Extra: mo.Extra}
+	return nil, true
+}
+
 func xsyncLoad(e *Engine, s *State, f *Frame, fn *ssa.Function, args []Value, retIdx int, advance bool) (Value, bool) {
+	e.preemptPoint(s)
 	if v, ok := xsyncLookup(e, s, args[0].(*Pointer), args[1]); ok {
 		return TupleV{v, e.c.True}, true
 	}
